@@ -179,7 +179,8 @@ def check_routing(circuit, connectivity, routed, layout, exact, before=None):
     tin = [m for m in final_measurements(circuit.queue) if not m.collapse]
     tout = [m for m in trailing(routed.queue) if not m.collapse]
     win = [(regname(m), tuple(f[q] for q in m.qubits)) for m in tin]
-    wout = [(regname(m), tuple(m.qubits)) for m in tout]
+    # (pieces of a split collapsing multi-qubit measurement may precede them)
+    wout = [(regname(m), tuple(m.qubits)) for m in tout[len(tout) - len(tin):]] if len(tout) >= len(tin) else None
     if wout != win:
         bad.append(("measurements", f"final measurements at the end of the output {[(m.register_name, m.qubits) for m in tout]}, expected {win}"))
     # registers never disappear from the results of the routed circuit
